@@ -112,6 +112,13 @@ KINDS = ["connectReq", "connectEvt", "dConnected", "dClosed", "disconnectReq", "
 
 def cases(chk):
     r = chk.rng
+    for disp in ("socket", "asyncore"):
+        yield "realdisp", {"dispatcher": disp, "errors": ["ack", "ack"], "reconnect": 1}
+        if not chk.quick() or disp == "socket":
+            yield "realdisp", {"dispatcher": disp, "errors": ["ack", "conflict"], "reconnect": 1}
+            yield "realdisp", {"dispatcher": disp, "errors": ["ack"], "reconnect": 0}
+        if not chk.quick():
+            yield "realdisp", {"dispatcher": disp, "errors": ["ack", "ack", "ack"], "reconnect": 1}
     for i, end in enumerate(["conflict", "ack", "unknown", "disconnectReq", "xmlNotWellFormed"]):
         for rec in (1, 0):
             yield "reboot", {"end": end, "reconnect": rec, "seed": i * 2 + rec}
@@ -248,6 +255,8 @@ def _drain_detached(stack):
 
 
 def nontrivial(stream, case):
+    if stream == "realdisp":
+        return (stream, repr(case))
     if stream == "reboot":
         return (stream, case["end"], case["reconnect"])
     if stream == "relogin":
@@ -298,8 +307,9 @@ def model_event(ev, allowed_d):
 
 def run_reboot(chk, case):
     """the stack WITH the encryption control layer and a profile that has keys to upload: passive login, key upload, the control layer's own
-    reboot of the connection (disconnect + connect), second login; then one of the property's terminal events.  Oracle only (the lifecycle
-    model has no control layer): after the control layer's one intended reboot, reconnects follow the property's policy again."""
+    reboot of the connection (disconnect + connect), second login; then one of the property's terminal events.  Every step is compared with
+    the lifecycle model (control := true, input keysFlushed); oracle: after the control layer's one intended reboot, reconnects follow the
+    property's policy again."""
     from yowsup.axolotl.manager import AxolotlManager
     from yowsup.config.v1.config import Config
     from yowsup.layers import YowParallelLayer
@@ -330,42 +340,81 @@ def run_reboot(chk, case):
     stack.setProfile(YowProfile("c16-" + uuid.uuid4().hex, Config(phone="4915166%06d" % (case["seed"] % 10 ** 6), cc=49, client_static_keypair=KeyPair.generate())))
     net = stack.getLayer(0)
     steps = []
+    d = chk.driver
+    d.ask("life reset %d 1 1" % case["reconnect"])         # (the control layer switches the login to passive at connect: keys to upload)
+    marks = {"near": 0, "top": 0}
+
+    def observe(mev):
+        """what the stack did since the last call, in the model's vocabulary; compared with the model's step"""
+        obs = list(FakeDispatcher.LOG)
+        del FakeDispatcher.LOG[:]
+        for e in near.events[marks["near"]:]:
+            n = e.getName()
+            if n.endswith("network.connected"):
+                obs.append("up")
+            elif n.endswith("network.disconnected"):
+                obs.append("downNear")
+            elif n.endswith("event.auth"):
+                obs.append("authAttempt:%d" % (1 if e.getArg("passive") else 0))
+            elif n.endswith("auth.authed"):
+                obs.append("authed")
+        for e in top.events[marks["top"]:]:
+            if e.getName().endswith("network.disconnected"):
+                obs.append("downAll")
+        for e in top.received[marks.get("rec", 0):]:
+            if type(e).__name__ == "StreamErrorProtocolEntity":
+                obs.append("entityStreamError:%s" % {"conflict": "conflict", "ack": "ack", "xml-not-well-formed": "xmlNotWellFormed"}.get(e.getErrorType(), "unknown"))
+        marks["near"], marks["top"], marks["rec"] = len(near.events), len(top.events), len(top.received)
+        # (what is written to the connection — the key upload, acknowledgements — is not this stream's subject)
+        obs = [o for o in obs if not o.startswith(("written", "dropped"))]
+        mobs = [x for x in d.ask("life step " + mev).split(",") if x and not x.startswith(("written", "dropped", "pingSent"))]
+        if sorted(obs) != sorted(mobs):
+            fails.append(corr("reboot:" + mev.split(" ")[0], "steps %s, then %s: impl=%s model=%s" % (steps, mev, obs, mobs)))
 
     def login(expect_upload):
-        d = FakeDispatcher.created[-1]
-        d.handle_connect()
+        dd = FakeDispatcher.created[-1]
+        dd.handle_connect()
+        observe("dConnected %d" % dd.idx)
         n0 = len(near.sent)
         net.receive(_node("success"))
+        observe("success")
         ups = [n for n in near.sent[n0:] if getattr(n, "tag", None) == "iq" and n.getChild("list") is not None]
-        steps.append("connected+success (dispatcher %d, %d key upload)" % (d.idx, len(ups)))
+        steps.append("connected+success (dispatcher %d, %d key upload)" % (dd.idx, len(ups)))
         return ups
     sink = io.StringIO()
     chk.hit("reboot:%s" % case["end"])
     try:
         with contextlib.redirect_stdout(sink):
             iface.connect()
+            observe("connectReq")
             ups = login(True)
             if len(ups) != 1:
                 return []          # no passive upload with this profile: nothing to test (C14's subject)
             net.receive(N("iq", {"id": ups[0]["id"], "type": "result", "from": "s.whatsapp.net"}))
+            observe("keysFlushed")
             run_loop(stack)
+            observe("loop")
             steps.append("upload confirmed, loop")
             if len(FakeDispatcher.created) != 2:
-                return [oracle("C16:reboot-after-key-upload", "steps %s: after the confirmed passive upload %d connection(s) exist, the control layer's reboot should have made a second one"
-                               % (steps, len(FakeDispatcher.created)))]
+                return fails + [oracle("C16:reboot-after-key-upload", "steps %s: after the confirmed passive upload %d connection(s) exist, the control layer's reboot should have made a second one"
+                                       % (steps, len(FakeDispatcher.created)))]
             login(False)
             ncreated = len(FakeDispatcher.created)
             end = case["end"]
             if end == "disconnectReq":
                 iface.disconnect()
+                observe("disconnectReq")
             else:
                 net.receive(_node("streamError:" + end))
+                observe("streamError:" + end)
             run_loop(stack)
+            observe("loop")
             run_loop(stack)
+            observe("loop")
             steps.append(end + ", loop")
     except Exception as e:
         import traceback
-        return [oracle("C16:reboot-flow-raises", "steps %s: %s: %s" % (steps, type(e).__name__, traceback.format_exc().strip().splitlines()[-1][:160]))]
+        return fails + [oracle("C16:reboot-flow-raises", "steps %s: %s: %s" % (steps, type(e).__name__, traceback.format_exc().strip().splitlines()[-1][:160]))]
     new = len(FakeDispatcher.created) - ncreated
     want = 1 if (case["end"] in ("ack", "xmlNotWellFormed", "unknown") and case["reconnect"]) else 0
     if new != want:
@@ -376,7 +425,117 @@ def run_reboot(chk, case):
     return fails
 
 
+def run_realdisp(chk, case):
+    """the lifecycle with the REAL dispatchers (socket / asyncore) against a TCP peer on the loopback interface, driven the way an application
+    does it: CONNECT is broadcast, then the stack's loop runs.  With these dispatchers connect() only returns when the connection has ended,
+    so reconnects nest.  The peer answers each of the first n connections with a stream error and keeps the last one open: with the
+    reconnect option on, n non-conflict errors must lead to n+1 connections; a conflict or the option off to no further one."""
+    import socket
+    import threading
+    import time
+    from yowsup.layers import YowLayer, YowLayerEvent, YowParallelLayer
+    from yowsup.layers.auth import YowAuthenticationProtocolLayer
+    from yowsup.layers.interface import YowInterfaceLayer
+    from yowsup.layers.network import YowNetworkLayer
+    from yowsup.stacks import YowStack
+    from yowsup.structs import ProtocolTreeNode as N
+    fails = []
+    try:
+        srv = socket.socket()
+        srv.bind(("127.0.0.1", 0))
+        srv.listen(8)
+    except OSError as e:
+        chk.notes.append("stream 'realdisp' skipped: no loopback TCP in this sandbox (%s)" % e)
+        return fails
+    srv.settimeout(3)
+    port = srv.getsockname()[1]
+    kinds = list(case["errors"])
+    accepted = []
+    stop = threading.Event()
+
+    def server():
+        while not stop.is_set():
+            try:
+                c, _a = srv.accept()
+            except OSError:
+                return
+            i = len(accepted)
+            accepted.append(c)
+            try:
+                c.sendall(b"S")                                      # login succeeds
+                if i < len(kinds):
+                    time.sleep(0.05)
+                    c.sendall(b"C" if kinds[i] == "conflict" else b"E")   # then a stream error
+            except OSError:
+                pass
+    threading.Thread(target=server, daemon=True).start()
+
+    class Conv(YowLayer):
+        """the peer's bytes as stanzas (stands for the noise + coder layers)"""
+        def receive(self, data):
+            for b in bytes(data):
+                if b == ord("S"):
+                    self.toUpper(_node("success"))
+                elif b == ord("E"):
+                    self.toUpper(_node("streamError:ack"))
+                elif b == ord("C"):
+                    self.toUpper(_node("streamError:conflict"))
+
+        def send(self, data):
+            pass
+    iface = YowInterfaceLayer()
+    import yowsup.layers.network.layer as nl
+    from yowsup.layers.network.dispatcher.dispatcher_asyncore import AsyncoreConnectionDispatcher as RealAsyncore
+    patched = nl.AsyncoreConnectionDispatcher
+    nl.AsyncoreConnectionDispatcher = RealAsyncore          # (the other streams of this check run with a dispatcher double)
+    stack = YowStack((YowNetworkLayer, Conv, YowParallelLayer((YowAuthenticationProtocolLayer,)), iface), reversed=False)
+    stack.setProp(YowNetworkLayer.PROP_ENDPOINT, ("127.0.0.1", port))
+    stack.setProp(YowNetworkLayer.PROP_DISPATCHER, YowNetworkLayer.DISPATCHER_SOCKET if case["dispatcher"] == "socket" else YowNetworkLayer.DISPATCHER_ASYNCORE)
+    stack.setProp(YowInterfaceLayer.PROP_RECONNECT_ON_STREAM_ERR, bool(case["reconnect"]))
+    chk.hit("realdisp:%s" % case["dispatcher"], "realdisp:errors=%d" % len(kinds))
+
+    def app():
+        try:
+            from corr.c18 import run_loop
+            stack.broadcastEvent(YowLayerEvent(YowNetworkLayer.EVENT_STATE_CONNECT))
+            for _i in range(40):
+                run_loop(stack)           # (returns when no deferred event is queued)
+                if stop.is_set():
+                    break
+                time.sleep(0.05)
+        except Exception:
+            pass
+    t = threading.Thread(target=app, daemon=True)
+    t.start()
+    want = 1
+    for k in kinds:
+        if k == "conflict" or not case["reconnect"]:
+            break
+        want += 1
+    end = time.time() + 6
+    while time.time() < end and len(accepted) < want:
+        time.sleep(0.05)
+    time.sleep(0.6)           # a further, unwanted connection would show up now
+    got = len(accepted)
+    stop.set()
+    for c in accepted:
+        try:
+            c.close()
+        except OSError:
+            pass
+    srv.close()
+    t.join(4)
+    nl.AsyncoreConnectionDispatcher = patched
+    if got != want:
+        fails.append(oracle("C16:no-reconnect" if got < want else "C16:unexpected-reconnect",
+                            "%s dispatcher, application main (CONNECT, then the stack's loop), reconnect option %s, the peer answers the first %d connection(s) with stream errors %s: "
+                            "%d connection(s) were made, the policy says %d" % (case["dispatcher"], bool(case["reconnect"]), len(kinds), kinds, got, want)))
+    return fails
+
+
 def run_case(chk, stream, case):
+    if stream == "realdisp":
+        return run_realdisp(chk, case)
     if stream == "reboot":
         return run_reboot(chk, case)
     if stream == "relogin":
@@ -591,7 +750,7 @@ def check_trace(case, executed, trace):
 
 
 def shrink(stream, case):
-    if stream == "reboot":
+    if stream in ("reboot", "realdisp"):
         return
     if stream == "relogin":
         for i in range(len(case["downs"])):
